@@ -14,8 +14,11 @@
   reclaimed ∨ assigned memo stale.  For the S2 fragment (plain functions over inputs) only "no memo"
   and "recorded edge changed" exist, and that is what is proved here.
 
-  NOT YET PROVED: the disjuncts for eviction / untracked / no_eq (stage S3: Props/C04, C05Engine),
-  tracked structs, interning, specify (stage S4); `c03_strict_false` (the LRU boundary witness).
+  PROVED ELSEWHERE: the disjuncts for eviction / untracked / no_eq (stage S3 engine `Core3`, all
+  well-formed programs, invariant `InvE`) and `c03_strict_false` (the LRU boundary witness):
+  Props/C03Core3.lean (`c03_core3_exec_justified`, …).
+
+  NOT YET PROVED: tracked structs, interning, specify (stage S4).
 -/
 import SalsaVerif.Model.Core
 import SalsaVerif.Proofs.CoreTrace
